@@ -218,6 +218,18 @@ class Runner:
 
             dcfg.on_message = start_traffic
 
+    def on_stop_arg(self) -> Any:
+        """The stop callback the 'application' passes: well behaved by default; spec['on_stop_mode'] == 'raises' gives a plain function that
+        raises synchronously (an application bug: e.g. a callback with the wrong signature)."""
+        sim = self.sim
+        if self.spec.get("on_stop_mode") == "raises":
+            def bad_on_stop(expected: bool) -> Any:
+                sim.user_on_stop.append((sim.next_seq(), sim.clock, "client", expected))
+                sim.log("on_stop", "client(raising)", expected)
+                raise RuntimeError("application bug inside on_stop")
+            return bad_on_stop
+        return sim.on_stop_cb()
+
     # ------------------------------------------------------------------ user program
     async def sleep(self, dt: float) -> None:
         fut = self.sim.loop.create_future()
@@ -231,14 +243,14 @@ class Runner:
             kind = op[0]
             if kind == "connect":
                 if spec["split_connect"]:
-                    c = sim.call("start", lambda: cli.start_connection(on_stop=sim.on_stop_cb()))
+                    c = sim.call("start", lambda: cli.start_connection(on_stop=self.on_stop_arg()))
                     await c.task
                     if c.outcome != "ok":
                         break
                     c = sim.call("finish", lambda: cli.finish_connection(login=spec["login"]))
                     await c.task
                 else:
-                    c = sim.call("connect", lambda: cli.connect(on_stop=sim.on_stop_cb(), login=spec["login"]))
+                    c = sim.call("connect", lambda: cli.connect(on_stop=self.on_stop_arg(), login=spec["login"]))
                     await c.task
                 if c.outcome != "ok":
                     break
